@@ -4,7 +4,7 @@
 plan = {config: {mws:[{name, level, phases}], ep_returns, has_render, handler},
         ops: [{method, path, accept, faults: {function: {beh, exc|value, msg, breaking}}}]}
 """
-from clastic import Application, Route, POST
+from clastic import Application, Route, POST, GET
 from clastic import errors as cerrors
 from clastic.errors import ErrorHandler, ContextualErrorHandler, BadGateway
 
@@ -65,7 +65,10 @@ def build_app(cfg):
     eh, debug = make_handler(cfg['handler'])
     kw = {'debug': True} if debug else {}
     return Application([Route('/x', ep, rn, middlewares=objs('route')),
-                        POST('/only-post', make_function('EP2', False, default_value='resp', bound=False))],
+                        POST('/only-post', make_function('EP2', False, default_value='resp', bound=False)),
+                        # two method-restricted routes on one path: a wrong-method request touches both
+                        GET('/item', make_function('ITEM_GET', False, default_value='resp', bound=False)),
+                        POST('/item', make_function('ITEM_POST', False, default_value='resp', bound=False))],
                        middlewares=objs('app'), error_handler=eh, **kw)
 
 
@@ -88,6 +91,8 @@ def expected(cfg, op):
             return http(405)
         faults = dict((('EP' if k == 'EP2' else k), v) for k, v in op['faults'].items() if k not in ('EP', 'RN'))
         out = dispatch_outcome(app_fn, app_fn, faults, 'resp', False)
+    elif path == '/item':
+        return ('status', 200) if method in ('GET', 'HEAD', 'POST') else http(405)
     elif path != '/x':
         return http(404)
     else:
@@ -106,7 +111,7 @@ class C08(Check):
     world = 'chain'
     level = 'fault_enumeration'
     design_ref = 'DESIGN.md 3.4'
-    runs = {'quick': 3000, 'thorough': 60000}
+    runs = {'quick': 2000, 'thorough': 50000}
     shrink_lists = (('ops',), ('config', 'mws'))
     rule = ('generated stacks (0-4 middlewares, app/route level, any phases) x error handler {default, debug, re-raising, '
             'broken render_error, render_error returning another error}; per stack EVERY chain position is made faulty once '
@@ -166,7 +171,7 @@ class C08(Check):
         for pos in positions:
             ops.append(req({pos: self.gen_fault(frng, pos in ('EP', 'RN', 'EP2'))}))
             if rng.random() < 0.3:
-                ops.append({'method': rng.choice(['GET', 'DELETE']), 'path': rng.choice(['/nope', '/only-post', '/x/y']),
+                ops.append({'method': rng.choice(['GET', 'DELETE', 'PUT']), 'path': rng.choice(['/nope', '/only-post', '/x/y', '/item', '/item']),
                             'accept': rng.choice(ACCEPTS), 'faults': {}})
         for _ in range(2 if tier == 'quick' else 4):
             two = frng.sample(positions, min(2, len(positions)))
@@ -200,7 +205,10 @@ class C08(Check):
             return res
         probes = [{'method': 'GET', 'path': '/x', 'accept': None, 'faults': {}},
                   {'method': 'GET', 'path': '/nope', 'accept': 'application/json', 'faults': {}},
-                  {'method': 'GET', 'path': '/only-post', 'accept': None, 'faults': {}}]
+                  {'method': 'GET', 'path': '/only-post', 'accept': None, 'faults': {}},
+                  {'method': 'GET', 'path': '/item', 'accept': None, 'faults': {}},
+                  {'method': 'POST', 'path': '/item', 'accept': None, 'faults': {}},
+                  {'method': 'PUT', 'path': '/item', 'accept': None, 'faults': {}}]
 
         def snapshot(seq):
             out = []
@@ -265,7 +273,8 @@ class C08(Check):
                 elif not isinstance(ex.escaped, TypeError):
                     res.violate(K + 'reraised-wrong-type@%s' % where, ctx + ' -> %r, expected the framework TypeError' % (ex.escaped,), step)
                     break
-            if op['faults']:
+            if op['faults'] or (exp[0] == 'status' and exp[1] >= 400):
+                # a failed request (also a plain 404/405) must leave the application unchanged
                 snap = snapshot(1000 + step)
                 if snap != baseline:
                     res.violate(K + 'no-recovery@%s' % where, ctx + '\n after this request the healthy probes answer %s, before %s'
